@@ -132,6 +132,36 @@ fn main() {
                 assert_eq!(s.picture_data.len(), (s.get_width() * s.get_height() * 4) as usize);
             }
         }
+        "sixel-cover" => {
+            // two small images, then one that covers both: the poll that hands the third image over removes the two older
+            // ones while other decode threads may still be running
+            let mut buf = Buffer::create((80, 25));
+            buf.is_terminal_buffer = true;
+            let mut caret = Caret::default();
+            let mut p = icy_engine::ansi::Parser::default();
+            let small = |col: u8| format!("\x1bPq\"1;1;6;6#{col};2;100;0;0#{col}!6~\x1b\\");
+            let big = "\x1bPq\"1;1;40;36#3;2;0;100;0#3!40~-!40~-!40~-!40~-!40~-!40~\x1b\\";
+            let seq = format!("\x1b[2;2H{}\x1b[2;4H{}\x1b[1;1H{big}", small(1), small(2));
+            feed(&mut buf, &mut caret, &mut p, seq.as_bytes());
+            let mut spins = 0;
+            while !buf.sixel_threads.is_empty() && spins < 100_000 {
+                let _ = buf.update_sixel_threads();
+                std::thread::yield_now();
+                spins += 1;
+            }
+            assert!(buf.sixel_threads.is_empty());
+            assert_eq!(buf.layers[0].sixels.len(), 1);
+            assert_eq!(buf.layers[0].sixels[0].get_width(), 40);
+        }
+        "sixel-loader" => {
+            // the file loader's own wait loop over the decode queue
+            let small = |col: u8| format!("\x1bPq\"1;1;6;6#{col};2;100;0;0#{col}!6~\x1b\\");
+            let file = format!("\x1b[2;2H{}\x1b[2;20H{}\x1b[5;1Htext", small(1), small(2));
+            let b = Buffer::from_bytes(Path::new("m.ans"), false, file.as_bytes()).unwrap();
+            assert!(b.sixel_threads.is_empty());
+            let images: usize = b.layers.iter().map(|l| l.sixels.len()).sum();
+            assert_eq!(images, 2);
+        }
         _ => {
             eprintln!("unknown scenario");
             std::process::exit(2);
